@@ -1266,7 +1266,7 @@ def _scalar_dicts(fdef, log=None):
             return _scalar_dicts(fdef, log)
 
 
-def _eliminate_aliases(fdef, log=None):
+def _eliminate_aliases(fdef, log=None, member_ok=None):
     """N27: `x = y` between two plain locals, where this is the only binding of x, every binding of y comes before it and x is not read
     before it: y is x under another name (a hoisted temporary, the result variable of an inlined helper).  y is renamed to x and the
     copy disappears; nothing is evaluated differently."""
@@ -1343,10 +1343,14 @@ def _eliminate_aliases(fdef, log=None):
                     note(st, idx)
         go(fdef.body)
         for idx, st in enumerate(stmts_order):
-            if isinstance(st, ast.Assign) and len(st.targets) == 1 and isinstance(st.targets[0], ast.Name) and _stable_path(st.value) \
+            member = isinstance(st, ast.Assign) and isinstance(st.value, ast.Attribute) and isinstance(st.value.value, ast.Name) and st.value.value.id == "self" \
+                and member_ok is not None and member_ok(st.value.attr)
+            if isinstance(st, ast.Assign) and len(st.targets) == 1 and isinstance(st.targets[0], ast.Name) and (_stable_path(st.value) or member) \
                     and any(st is s_ for s_ in fdef.body):
                 # N36: `x = self.CMD.UI_ATT` at the top level of the function, the only binding of x, x not read before it: x is a short name for
-                # the class-level constant (constant paths are what N2 already substitutes for loop variables); the path takes its place
+                # the class-level constant (constant paths are what N2 already substitutes for loop variables); the path takes its place.
+                # The same for `x = self._member` when the class binds that member in __init__ only (and this is not __init__): x and the member
+                # are the same object throughout
                 x = st.targets[0].id
                 root = st.value
                 while isinstance(root, ast.Attribute):
@@ -1749,6 +1753,17 @@ class Normalizer:
             if nm not in used:
                 self.dead |= {q for q in qs if q in inlined}
 
+    def _member_init_only(self, modname, cname, attr):
+        cdef = self.classes.get((modname, cname))
+        if cdef is None:
+            return False
+        for m in cdef.body:
+            if isinstance(m, ast.FunctionDef) and m.name != "__init__":
+                if any(isinstance(a, ast.Attribute) and a.attr == attr and isinstance(a.ctx, (ast.Store, ast.Del)) and isinstance(a.value, ast.Name) and a.value.id == "self"
+                       for a in ast.walk(m)):
+                    return False
+        return any(isinstance(m, ast.FunctionDef) and m.name == "__init__" for m in cdef.body)
+
     def _const_via_member(self, e, modname, cname):
         """self.<member>.UPPER(.UPPER)*: a class-level constant reached through a member object that the class binds in __init__ only (the dongle, the
         pin file ...): the same value wherever it is evaluated within one request"""
@@ -1801,7 +1816,7 @@ class Normalizer:
         for d_, ns_, ln_ in sd_:
             self.lowered.append((stack[0], ln_, f"dict slots {d_}->{ns_}"))
         al_ = []
-        _eliminate_aliases(fdef, al_)
+        _eliminate_aliases(fdef, al_, member_ok=(lambda a_: self._member_init_only(modname, cname, a_)) if cname is not None and fdef.name != "__init__" else None)
         for y_, x_, ln_ in al_:
             self.lowered.append((stack[0], ln_, f"alias {y_}->{x_}"))
 
